@@ -153,10 +153,12 @@ class Check:
         return r
 
     # ---------------------------------------------------------------- graph export
-    def export_graph(self, module, cfg, cfg_text=None, timeout=900):
+    def export_graph(self, module, cfg, cfg_text=None, timeout=900, extra_files=None):
         """Run a Gen* config whose ACTION_CONSTRAINT prints one EDGE line per transition."""
-        r = self.tlc(module, cfg, workers=1, timeout=timeout,
-                     files={cfg + ".cfg": cfg_text} if cfg_text else None)
+        files = dict(extra_files or {})
+        if cfg_text:
+            files[cfg + ".cfg"] = cfg_text
+        r = self.tlc(module, cfg, workers=1, timeout=timeout, files=files)
         if r.errors:
             sys.stderr.write(r.out[-3000:])
             raise Infra("graph export %s/%s failed" % (module, cfg))
